@@ -341,6 +341,132 @@ def strict_commit(key, value):
 
 
 # ---------------------------------------------------------------------------------------------
+# how far the decoder gets: bytes actually consumed by successful field reads, and the requests that follow
+# (independent re-statement of the decoding order; the memory oracle of C06 allows allocation per byte consumed and per
+# request emitted, nothing for what a message merely announces)
+# ---------------------------------------------------------------------------------------------
+
+class Walk:
+    def __init__(self, b):
+        self.b, self.i, self.consumed = b, 0, 0
+
+    def left(self):
+        return len(self.b) - self.i
+
+    def take(self, n):
+        if n < 0 or n > self.left():
+            raise Short()
+        r = self.b[self.i:self.i + n]
+        self.i += n
+        self.consumed += n
+        return r
+
+    def i16(self):
+        return struct.unpack(">h", self.take(2))[0]
+
+    def i32(self):
+        return struct.unpack(">i", self.take(4))[0]
+
+    def i64(self):
+        return struct.unpack(">q", self.take(8))[0]
+
+    def string(self):
+        n = self.i16()
+        if n == -1:
+            return b""
+        if n < 0:
+            raise Short()
+        return self.take(n)
+
+    def skip(self, n):
+        """buf.Next(n): clamps; skipped bytes are not decoded (and cost nothing)"""
+        n = min(n, self.left())
+        r = self.b[self.i:self.i + n]
+        self.i += n
+        return r
+
+
+def walk(allow, deny, key, value):
+    """(bytes consumed by successful reads in key and value, number of requests the message yields)."""
+    k, v = Walk(key), Walk(value)
+    subs = []
+    reqs = 0
+
+    def total():
+        return k.consumed + v.consumed + sum(x.consumed for x in subs)
+    try:
+        kv = k.i16()
+        if kv in (0, 1):
+            g = k.string()
+            k.string()
+            k.i32()
+            if not accept(allow, deny, g) or not value:
+                return total(), 0
+            vv = v.i16()
+            if vv in (0, 1):
+                v.i64(), v.string(), v.i64()
+            elif vv == 3:
+                v.i64(), v.i32(), v.string(), v.i64()
+            else:
+                return total(), 0
+            return total(), 1
+        if kv != 2:
+            return total(), 0
+        g = k.string()
+        if not accept(allow, deny, g):
+            return total(), 0
+        if not value:
+            return total(), 1
+        vv = v.i16()
+        if not 0 <= vv <= 3:
+            return total(), 0
+        pt = v.string()
+        v.i32(), v.string(), v.string()
+        if vv >= 2:
+            v.i64()
+        if pt != b"consumer":
+            return total(), 0
+        mc = v.i32()
+        if mc == 0:
+            return total(), 1
+        for _ in range(max(mc, 0)):
+            v.string()
+            if vv == 3:
+                v.string()
+            v.string(), v.string()
+            if vv >= 1:
+                v.i32()
+            v.i32()
+            sb = v.i32()
+            if sb > 0:
+                v.skip(sb)
+            ab = v.i32()
+            topics = {}
+            if ab > 0:
+                a = Walk(v.skip(ab))
+                subs.append(a)
+                if a.i16() < 0:
+                    raise Short()
+                nt = a.i32()
+                if nt < -1:
+                    raise Short()
+                for _t in range(max(nt, 0)):
+                    name = a.string()
+                    np = a.i32()
+                    if np < 0 or np > a.left() // 4:
+                        raise Short()
+                    a.take(4 * np)
+                    topics[name] = np
+                ud = a.i32()
+                if ud > 0:
+                    a.skip(ud)
+            reqs += sum(topics.values())
+    except (Short, struct.error):
+        pass
+    return total(), reqs
+
+
+# ---------------------------------------------------------------------------------------------
 # random well-formed messages
 # ---------------------------------------------------------------------------------------------
 
@@ -549,6 +675,8 @@ def gen_hostile(rng):
     allow, deny = rnd_lists(rng) if rng.random() < 0.3 else (0, 0)
     order = rnd_int(rng, I64)
     cfg = rnd_cfg(rng)
+    if rng.random() < 0.25:
+        cfg = cfg[:2] + (cfg[2] + "Z",)      # module with a real zap core (output discarded) instead of the nop logger
     r = rng.random()
     if r < 0.2:
         n1, n2 = rng.randrange(0, 40), rng.randrange(0, 201)
@@ -684,9 +812,21 @@ def gen_sweep(rng):
 # by filler that keeps the decoder busy without making it emit requests
 # ---------------------------------------------------------------------------------------------
 
-def gen_large(rng):
-    size = rng.randrange(8 * 1024, 32 * 1024)
-    shape = rng.choice(["topics-zero-filler", "topics-named-filler", "subscription-blob", "random-filler", "strings"])
+def gen_commit_long(rng, n=None, zap=None):
+    """A well-formed offset commit whose group and topic are long strings of control characters or printable bytes."""
+    n = n or rng.choice([500, 2000, 8000, 32767])
+    ch = rng.choice([b"\x01", b"\x1f", b"g", b"\xff"])
+    f = gen_offset_fields(rng, valver=rng.choice([0, 1, 3]))
+    f["group"], f["topic"], f["metadata"] = ch * n, ch * rng.randrange(0, n + 1), rng.choice([None, b"", ch * (n // 2)])
+    key, value, _, _ = enc_offset(f)
+    z = (rng.random() < 0.5) if zap is None else zap
+    return line_msg(0, 0, rnd_int(rng, I64), key, value, DEFAULT_CFG[:2] + ("SZ" if z else "S",)), ["large", "large:commit-long-strings"]
+
+
+def gen_large(rng, lo=8 * 1024, hi=32 * 1024, shape=None):
+    size = rng.randrange(lo, hi) if hi > lo else lo
+    shape = shape or rng.choice(["topics-zero-filler", "topics-named-filler", "subscription-blob", "random-filler", "strings",
+                                 "bad-first-topic"])
     k = Enc()
     k.i16(2)
     k.string(b"grp")
@@ -728,12 +868,15 @@ def gen_large(rng):
         v.i32(rng.choice([size, 2**31 - 1, size * 2]))
         v.i16(0)
         v.i32(big)
-        if shape == "topics-zero-filler":
+        if shape == "bad-first-topic":
+            v.i16(-2)                                            # nothing can be decoded; the rest is only announced
+            v.b += bytes(size)
+        elif shape == "topics-zero-filler":
             v.b += bytes(size)                                   # topics "" with 0 partitions
         elif shape == "topics-named-filler":
             i = 0
             while len(v.b) < size:
-                v.string(b"%04x" % (i & 0xffff))
+                v.string(b"%06x" % i)
                 v.i32(0)
                 i += 1
         else:
